@@ -90,6 +90,7 @@ func genBasicRPC(t *rapid.T, label string, maxMsgs int, allowHuge bool) RPC {
 	}
 	r.Fuse = genFuse(t, label)
 	r.ReuseMsg = rapid.IntRange(0, 3).Draw(t, label+".reusemsg") == 0
+	r.RecvUnknown = !r.ReuseMsg && rapid.IntRange(0, 4).Draw(t, label+".recvunknown") == 0
 	return r
 }
 
@@ -120,6 +121,9 @@ func genMixed(t *rapid.T) *Case {
 				r.Resp = nil
 				r.HOps = nil
 			}
+		}
+		if rapid.IntRange(0, 3).Draw(t, fmt.Sprintf("rpc%d.again", i)) == 0 {
+			r.ExtraRecvs = rapid.IntRange(1, 2).Draw(t, fmt.Sprintf("rpc%d.again.n", i)) // Recv calls after the terminal result
 		}
 		c.RPCs = append(c.RPCs, r)
 	}
